@@ -116,6 +116,27 @@ impl SendWindow {
         }
     }
 
+    /// Check that the ACK seq num in the incoming packet (if any) acknowledges something
+    /// that is actually in flight (or repeats the latest acknowledgement).
+    fn check_incoming(&self, hdr: &BtpHdr) -> Result<(), Error> {
+        let Some(ack_seq_num) = hdr.get_ack() else {
+            return Ok(());
+        };
+
+        let in_flight = self.window_size - self.level;
+        let unacknowledged = (Wrapping(self.last_sent_seq_num) - Wrapping(ack_seq_num)).0;
+
+        if unacknowledged > in_flight {
+            warn!(
+                "RX data integrity failure: ACK for a sequence number that is not in flight; last sent={}, in flight={}, ack={}",
+                self.last_sent_seq_num, in_flight, ack_seq_num
+            );
+            return Err(ErrorCode::InvalidData.into());
+        }
+
+        Ok(())
+    }
+
     /// Return true if the sending window is full.
     ///
     /// A reference to the receiving window is necessary, because - as per the Matter Core spec -
@@ -205,6 +226,11 @@ impl RecvWindow {
     fn accept_incoming(&mut self, hdr: &BtpHdr, payload: &[u8], mtu: u16) -> Result<(), Error> {
         // Check received packet integrity, as per the Matter Core spec
         self.check_data_integrity(hdr, payload, mtu)?;
+
+        if self.level == 0 {
+            warn!("RX data integrity failure: the receive window is exhausted (or no session is established). Is the other party overrunning our recv window?");
+            Err(ErrorCode::InvalidData)?;
+        }
 
         if let Some(msg_len) = hdr.get_msg_len() {
             // The segment size (`mtu`) covers the BTP header too, so an SDU fits in a single
@@ -679,6 +705,7 @@ impl Session {
             payload.len()
         );
 
+        self.send_window.check_incoming(&hdr)?;
         self.recv_window.accept_incoming(&hdr, payload, self.mtu)?;
         self.send_window.accept_incoming(&hdr);
 
